@@ -1,6 +1,6 @@
 """C14 (partial) - reported observables are mutually consistent.
 
-Decided: Etot = Eelec + Enuc (+ active excitation energy), Hf = Etot - Eiso + atomic heats (the spec's own
+Decided: dipole translation behaviour (invariant for neutral molecules, shift = charge x displacement for ions), Etot = Eelec + Enuc (+ active excitation energy), Hf = Etot - Eiso + atomic heats (the spec's own
 MOPAC table), gap = LUMO - HOMO of ascending orbital energies (per spin for UHF), charges sum to the
 molecular charge and follow from the density diagonal, electron count; and the currency of every
 published attribute (all from the same call).  Not decided: orbital energies are eigenvalues of the
@@ -32,12 +32,15 @@ def jobs(tier, rng):
             out.append(dict(mols=mols, path="uhf", params=dict(method=method, scf_converger=[1], scf_eps=1e-8, UHF=True)))
     for mols in (["h2co"], ["h2co", "h2co"], ["c2h4"]):
         for meth in ("cis", "rpa"):
-            for act in (0, 1, 2):
+            for act in (0, 1, 2, 3):
                 out.append(dict(mols=mols, path="scf_exc", params=dict(scf_converger=[1], scf_eps=1e-8, excited_states={"n_states": 3, "method": meth}, active_state=act)))
+    for mols in (["h2o"], ["nh3"], ["h2co"], ["h2o", "h2co"], ["h2co", "h2o"], ["oh-", "h2co"], ["h2co", "nh4+"]):
+        out.append(dict(mols=mols, path="scf", second="rotate", params=dict(method="AM1", scf_converger=[1], scf_eps=1e-8)))
     for mols in (["h2o"], ["ch4", "h2o"], ["nh3"]):
         out.append(dict(mols=mols, path="xl", params=dict(scf_converger=[1], scf_eps=1e-9)))
     if tier == "quick":
-        out = rng.sample(out, 44)
+        must = [j for j in out if j.get("second") == "rotate"] + [j for j in out if j["path"] == "scf_exc" and j["params"]["active_state"] == 3 and j["mols"] == ["h2co"]]
+        out = must + rng.sample([j for j in out if j not in must], 36)
     for n, j in enumerate(out):
         j["id"] = "p%04d" % n
     return out
